@@ -53,7 +53,13 @@ func main() {
 	}
 	defer out.Flush()
 	if *replay != "" {
-		p.replay(readReplay(*replay))
+		lines := readReplay(*replay)
+		// the replay of a crash of the implementation: the generator is deterministic, so the same run is repeated
+		if len(lines) > 0 && lines[0]["op"] == "crash-rerun" {
+			p.gen(NewRng(uint64(jnum(lines[0]["seed"]))), int(jnum(lines[0]["n"])), str(lines[0]["tier"]))
+			return
+		}
+		p.replay(lines)
 		return
 	}
 	p.gen(NewRng(*seed), *n, *tier)
